@@ -93,8 +93,7 @@ class Sim:
             self.extra["UCMM_class"] = ucmm_class
         self.control = M.cpppo.dotdict(done=False, disable=False, latency=0.0)
         self.kwds = dict(tags=self.tags, server=M.cpppo.dotdict(control=self.control), **self.extra)
-        if max_bytes is not None:
-            M.logix.Logix.MAX_BYTES = max_bytes
+        M.logix.Logix.MAX_BYTES = 488 if max_bytes is None else max_bytes      # the documented, user-alterable class attribute
         self.ucmm = M.logix.setup(**self.kwds)
         self.attrs = {}
         for name in dict.keys(self.tags):
